@@ -69,13 +69,27 @@ def make(ci, spec, mode, has_gamma, use_bias, quantized, delay=None):
       "activation": qm("act"),
       # the step counter: opaque when unused, a symbolic variable when the
       # freeze delay compares against it
-      "_iteration": Mock("iteration", {"assign_add": lambda pe, a, k: None})
+      "_iteration": Mock("iteration", {
+          "assign_add": lambda pe, a, k: None,
+          "numpy": lambda pe, a, k: -1, "value": lambda pe, a, k: -1})
       if delay is None else P_make_var(("sym", "iteration")),
       spec["qattr"]: "q" if quantized else None,
       spec["qattr"] + "_internal": qm("kernel") if quantized else None,
       "bias_quantizer": "q" if quantized else None,
       "bias_quantizer_internal": qm("bias") if quantized else None,
   })
+  # plain attributes the class's own __init__ / build() initialise with a
+  # constant (bookkeeping fields): the hand-built object has them too
+  for mname in ("__init__", "build"):
+    _, fn_ = ci.find_method(mname)
+    if fn_ is None:
+      continue
+    for n_ in ast.walk(fn_):
+      if isinstance(n_, ast.Assign) and isinstance(n_.value, ast.Constant):
+        for t_ in n_.targets:
+          if isinstance(t_, ast.Attribute) and isinstance(
+              t_.value, ast.Name) and t_.value.id == "self":
+            o.attrs.setdefault(t_.attr, n_.value.value)
   return o
 
 
@@ -226,6 +240,32 @@ def rule_call(rep, repo):
                   (cfg, show(fw(r[1].term), 200) if okk else r,
                    show(want_b, 200)), loc=gowner.module.loc(gfn),
                   instance=cfg)
+        # the folded weights follow the layer's CURRENT parameters: asked
+        # again after the kernel and the moving statistics were replaced
+        # (set_weights / load_weights: no training step in between) the
+        # answer is the formula on the new values
+        if okk:
+          k2 = Tensor(("sym", "kernel_new"), (3, 3, 4, 8))
+          o.attrs[spec["kernel"]] = k2
+          o.attrs["batchnorm"].attrs["moving_mean"] = Tensor(
+              ("sym", "mean_new"), (3, 3, 4, 8))
+          try:
+            r2 = pe.call_func(Func(gfn, gowner.module, [],
+                                   "get_folded_weights", o, gowner), [], {})
+            sub = {("sym", "kernel"): NF.sym("kernel_new"),
+                   ("sym", "mean"): NF.sym("mean_new")}
+            from ..qir import simplify_app as _sa
+            ok2 = isinstance(r2, (list, tuple)) and len(r2) == 2 and \
+                fw(r2[0].term) == want_k.subst(sub, _sa) and \
+                fw(r2[1].term) == want_b.subst(sub, _sa)
+            got2 = [show(fw(t_.term), 120) for t_ in r2] if isinstance(
+                r2, (list, tuple)) else r2
+          except PyRaise as e:
+            ok2, got2 = False, "raises %s" % e
+          rep.check(ok2, "R1", gunit, "folded-weights-stale",
+                    "%s: after the kernel and the moving mean were replaced "
+                    "get_folded_weights() returns %s" % (cfg, got2),
+                    loc=gowner.module.loc(gfn), instance=cfg)
     # constructor options dropped
     init = ci.methods.get("__init__")
     if init is not None:
